@@ -15,7 +15,7 @@ SPEC = {
                    "reports, markers, stale lock, stray *.json) and 2-4 real uploader.Run calls executed as threads "
                    "of the deterministic scheduler, one os/http call per step ('os' and 'net/http' of internal/upload "
                    "rewritten to yielding shims in the scratch copy): random and bounded-context-switch schedules, "
-                   "kills after a random call, scripted server answers 200/4xx/5xx/3xx/none (a quarter of the answers with a body that cannot be read: "
+                   "kills after a random call, scripted server answers 200 / 4xx (400, 401, 403, 404, 408, 410, 413, 425, 429, 431, 451) / 5xx (500, 502, 503, 504) / 3xx / none (a quarter of the answers with a body that cannot be read: "
                    "status line and headers arrive, the connection is cut - the status decides all the same), a scripted "
                    "create-then-read race, the scripted 'lateunlock' scenario (three runs, two or three weeks to upload: "
                    "run A's first request fails and A is parked before its second, run B locks the first week and is "
@@ -30,6 +30,19 @@ SPEC = {
                    "server log are compared with the model run on the same schedule; the C08 oracles are evaluated "
                    "on the implementation's observations (among them lock_released_by_other: a lock file of upload/ "
                    "disappears only by a step of the thread whose exclusive creation made it appear). distinct = distinct case lines, all non-trivial"),
+        Suite(name="starts", harness="vh_upload", runner="uptok",
+              model_deps=["theories/Model/Start.vo", "theories/Model/UploadStarts.vo"],
+              quick_n=400, thorough_n=4000, rewrite=rewrite_upload_imports, tags="verif", extra_args=["c08tok"],
+              rule="each case is a HISTORY of 3-8 program starts on one telemetry directory (progress over time: the "
+                   "uploader only runs when the start acquires the upload token): initially no token or a token 0 h - "
+                   "100 h old; the starts follow each other in a regular rhythm (every 1 / 5 / 12 / 13 / 23 / 23:59 / "
+                   "24 / 24:01 / 25 / 30 / 49 h) or with irregular gaps from that list; every start calls the real "
+                   "acquireUploadToken (injected exporter), and between two starts the gap is applied to the token file "
+                   "as the world would (its modification time is moved back by the gap, whatever the code made of the "
+                   "file). Observed per start: acquired?, token present, token age. Compared with Model/UploadStarts "
+                   "(starts_hist over acquire_seq of Model/Start.v); oracles on the observations: token_starved (a start "
+                   "at least 24 h after the last acquisition is refused), token_too_often (two acquisitions less than "
+                   "24 h apart). distinct = distinct case lines, all non-trivial"),
     ],
     "technique": "Coq inductive invariants over all interleavings of any number of uploader runs, all kill sets and all "
                  "server-outcome sequences (transition system at file-system/HTTP-call granularity) + lock-step "
@@ -38,6 +51,9 @@ SPEC = {
                   "transition system with one step per os/http call: for EVERY interleaving of ANY number of uploader runs "
                   "(started at any time: re-runs and concurrent runs), every kill set (a killed thread never runs again, its "
                   "lock file stays) and every sequence of server answers (200 / 4xx / other status / no answer): mutual "
+                  "progress over a history of program starts (C08_token_acquire_spec, C08_token_refused_keeps_window, "
+                  "C08_starts_not_starved, C08_starts_rate_ok on the token model of C16: a start acquires the upload token iff "
+                  "the last ACQUISITION is at least 24 h ago, a refused start leaves the window alone), "
                   "exclusion of the lock-file protocol (a lock file disappears only by the unlock step of its live holder: "
                   "C08_lock_removed_by_holder, C08_lock_kept_by_others), at most one acknowledgement per week (hence never two bodies), no "
                   "request while upload/W.json exists and that file is permanent, the status-dependent disposition of the "
@@ -64,6 +80,6 @@ SPEC = {
         "no file-system faults other than not-exist / exists",
     ],
     "trusted_base": [],
-    "own_objects": ["theories/Props/C08.vo", "theories/Proofs/UploaderLock.vo", "theories/Proofs/UploaderLockOwner.vo", "theories/Proofs/UploaderDisp.vo",
+    "own_objects": ["theories/Props/C08.vo", "theories/Proofs/UploaderLock.vo", "theories/Proofs/UploaderLockOwner.vo", "theories/Model/UploadStarts.vo", "theories/Proofs/UploadStartsFacts.vo", "theories/Proofs/UploaderDisp.vo",
                     "theories/Proofs/UploaderLive.vo"],
 }
